@@ -248,8 +248,8 @@ impl<R: Read + Seek> ReadBox<&mut R> for HvcCBox {
     fn read_box(reader: &mut R, _size: u64) -> Result<Self> {
         let configuration_version = reader.read_u8()?;
         let params = reader.read_u8()?;
-        let general_profile_space = params & 0b11000000 >> 6;
-        let general_tier_flag = (params & 0b00100000 >> 5) > 0;
+        let general_profile_space = (params & 0b11000000) >> 6;
+        let general_tier_flag = ((params & 0b00100000) >> 5) > 0;
         let general_profile_idc = params & 0b00011111;
 
         let general_profile_compatibility_flags = reader.read_u32::<BigEndian>()?;
@@ -263,9 +263,9 @@ impl<R: Read + Seek> ReadBox<&mut R> for HvcCBox {
         let avg_frame_rate = reader.read_u16::<BigEndian>()?;
 
         let params = reader.read_u8()?;
-        let constant_frame_rate = params & 0b11000000 >> 6;
-        let num_temporal_layers = params & 0b00111000 >> 3;
-        let temporal_id_nested = (params & 0b00000100 >> 2) > 0;
+        let constant_frame_rate = (params & 0b11000000) >> 6;
+        let num_temporal_layers = (params & 0b00111000) >> 3;
+        let temporal_id_nested = ((params & 0b00000100) >> 2) > 0;
         let length_size_minus_one = params & 0b000011;
 
         let num_of_arrays = reader.read_u8()?;
